@@ -32,7 +32,8 @@ SampleGraph(kk) ==
   IN  st.g
 
 (* two levels so that the cases are generated and checked by the worker threads: a seed state is  *)
-(* a set of edges with the weights of the first two fixed (the others minimal) or the index of a sample graph                           *)
+(* a set of edges with the weights of the first two fixed (the others minimal), or the index of a  *)
+(* sample graph                                                                                    *)
 vars == <<G, ph, idx>>
 SeedEdges == {EdgeSeq[i] : i \in 1..2}
 Init == /\ ph = 0
@@ -54,8 +55,9 @@ EmitCase == ph = 1 =>
 -----------------------------------------------------------------------------
 (* theorems *)
 CellsG(p) == LET F == FlagF(VV, G) IN FlagCells(F, FSeq(F), p)
-(* the flag filtration is a filtered chain complex: faces first, boundary of boundary zero *)
+(* the cliques grown vertex by vertex are the cliques of Simplicial.tla *)
 ThCliques == ph = 1 => FlagCliques(VV, DOMAIN G) = Cliques(VV, DOMAIN G, N)
+(* the flag filtration is a filtered chain complex: faces first, boundary of boundary zero *)
 ThWellFormed == ph = 1 => \A p \in Primes : WellFormed(CellsG(p), p)
 (* the strict driver computes the reduction of Persistence.tla *)
 ThStrict == ph = 1 => \A p \in Primes : StrictReduced(CellsG(p), p) = AlgReduced(CellsG(p), p)
